@@ -1,5 +1,6 @@
 import RomeaModel.Geodesy
 import RomeaProofs.RN
+import RomeaProofs.Lemmas.C01Analysis
 import Mathlib.Tactic.Linarith
 import Mathlib.Tactic.Ring
 import Mathlib.Tactic.FieldSimp
@@ -15,7 +16,10 @@ provable otherwise.  The route is: (i) on the domain the `RN` run of the model e
 `ℝ` run.  Idealisation (trusted base): exact arithmetic, no overflow, libm = the mathematical functions.
 
 Domain (`Dom`): `0 < b ≤ a`, `|lat| < π/2`, `N(lat)(1−e²) + h > 0` — implied by the quantifier text of the
-property (`|lat| ≤ 89.9°`, `h ≥ −11 km`, `a ≈ 6378 km`, `f ≤ 1/290`).
+property (`PropDom`: `|lat| ≤ 89.9°`, `h ∈ [−11 km, 100 km]`, `a` within 0.1 % of 6378137 m, `f ≤ 1/290`;
+`PropDom.dom`).  Sections 1–4: identities and ranges on `Dom`; sections 5–7: contraction of the latitude
+iteration (`q = 0.0099`), exit within 8 passes, round-trip accuracy and reverse composition on `PropDom`
+(real-analysis helper lemmas: `RomeaProofs/Lemmas/C01Analysis.lean`).
 -/
 namespace Romea.C01
 open Romea Romea.Geodesy Romea.RN Real
@@ -292,11 +296,14 @@ noncomputable def eps : ℝ := (epsilon : ℝ)
 
 theorem epsilon_of : (epsilon : RN) = of eps := rfl
 
-/-- obligation on the regenerated literal: `0 < EPSILON ≤ 1e-11`.  A source change that loosens the exit test
-    beyond what the accuracy statements below assume makes this theorem (and the check) fail. -/
-theorem epsilon_bounds : 0 < eps ∧ eps ≤ 1e-11 := by
+/-- obligation on the regenerated literal: `1e-15 ≤ EPSILON ≤ 1e-11`.  A source change that loosens the exit
+    test beyond what the accuracy statements below assume (or tightens it below what the termination bound
+    assumes) makes this theorem (and the check) fail. -/
+theorem epsilon_bounds : 1e-15 ≤ eps ∧ eps ≤ 1e-11 := by
   simp only [eps, epsilon, Generated.epsilonMantissa, Generated.epsilonExponent]
   norm_num
+
+theorem epsilon_pos : 0 < eps := lt_of_lt_of_le (by norm_num) epsilon_bounds.1
 
 /-! ## 3. The true latitude is a fixed point of the iteration map; the altitude formula returns h there -/
 
@@ -401,7 +408,7 @@ theorem lat_fixed_point {a b lat h : ℝ} (lon : ℝ) (hd : Dom a b lat h) :
   refine ⟨key, fun fuel => ?_⟩
   have heps : ¬ ((epsilon : RN) < Trans.abs (of lat - of lat)) := by
     simp only [epsilon_of, sub_of, abs_of, lt_of, sub_self, abs_zero, not_lt]
-    exact epsilon_bounds.1.le
+    exact epsilon_pos.le
   simp only [latLoop, key, heps, if_false]
 
 /-- F3'. At the true latitude the altitude formula returns `h` (guards: `cos lat ≠ 0`, `1 - e² sin² > 0`). -/
@@ -472,17 +479,14 @@ theorem ranges (fuel : Nat) (E : Ellipsoid RN) (p : Vec3 RN) (r : Geo RN) (h : t
     obtain ⟨z, rfl⟩ := atan2_eq_of hl
     exact ⟨Complex.neg_pi_lt_arg z, Complex.arg_le_pi z⟩
 
-/-! ## 5. Accuracy of the returned latitude (S: delivered as `_partial`)
+/-! ## 5. Accuracy of the returned latitude from the exit test, under a contraction hypothesis
 
-Full statement aimed at (DESIGN.md C01.5, S):
-  for `|lat| ≤ 89.9°`, `h ∈ [−11 km, 100 km]`, `a` within 0.1 % of 6378137, `f ≤ 1/290` the loop exits within the
-  fuel and `|lat' − lat| ≤ 1e-9`, `lon' = lon`, `|h' − h| ≤ 1e-3`, and the reverse composition is within 1 mm.
-What is proved below: the same conclusion for the latitude and longitude, with the explicit error bound
-`q·ε/(1−q)` (`ε = eps ≤ 1e-11`, `epsilon_bounds`), and termination within `k+1` passes, *under the hypothesis* that near the true latitude (radius `ρ`)
-the loop body is defined (no guard fails) and contracts towards the true latitude with factor `q < 1`, and that
-the initial guess lies within `ρ`.  Missing for the full statement: the analytic bound `q < 0.01` of the
-iteration map on the property's domain, the distance of the initial guess, and the Lipschitz constant of the
-altitude formula (≈ (N+h)·tan lat, 3.7e9 m/rad at 89.9°).  These are covered by the probe only. -/
+`roundtrip_accuracy_partial` is the abstract step: IF near the true latitude (radius `ρ`) the loop body is defined
+(no guard fails) and contracts towards the true latitude with factor `q < 1`, and the initial guess lies within
+`ρ`, THEN the loop exits within `k+1` passes (`(1+q) q^k ρ ≤ ε`) and the returned latitude is within `q·ε/(1−q)`
+of the truth (`ε = eps ≤ 1e-11`, `epsilon_bounds`), the longitude being exact.  Sections 6–7 discharge these
+hypotheses on the property's domain (`g_contracts`, `roundtrip_accuracy`, `reverse_composition`), so the name
+`_partial` only marks that this statement alone is conditional. -/
 
 private theorem loop_contracts {E : Ellipsoid RN} {n Z : RN} {lat ρ q : ℝ} (g : ℝ → ℝ)
     (hq0 : 0 ≤ q) (hq1 : q < 1)
@@ -575,6 +579,542 @@ theorem dom_of_property_domain {a b lat h : ℝ} (ha : 6378137 * 0.999 ≤ a) (h
     rw [lt_div_iff₀ ha0]; nlinarith
   linarith
 
+/-! ## 6. Contraction of the iteration map on the property's domain (S) -/
+
+/-- the quantifier domain of the property, as explicit predicates -/
+structure PropDom (a b lat h : ℝ) : Prop where
+  ha : 6378137 * 0.999 ≤ a
+  ha' : a ≤ 6378137 * 1.001
+  hf : a * (1 - 1 / 290) ≤ b
+  hba : b ≤ a
+  hlat : |lat| ≤ 89.9 * π / 180
+  hh : -11000 ≤ h
+  hh' : h ≤ 100000
+
+theorem PropDom.dom {a b lat h : ℝ} (hp : PropDom a b lat h) : Dom a b lat h :=
+  dom_of_property_domain hp.ha hp.hf hp.hba hp.hlat hp.hh
+
+/-- numeric facts on the property's domain -/
+private theorem prop_facts {a b lat h : ℝ} (hp : PropDom a b lat h) :
+    let E := Ellipsoid.make a b
+    0 ≤ E.e2 ∧ E.e2 ≤ 579 / 84100 ∧ 0.9965 ≤ Real.sqrt (1 - E.e2) ∧
+    a ≤ primeVertical E lat ∧ primeVertical E lat ≤ a / 0.9965 ∧
+    0.998273 * a ≤ primeVertical E lat + h ∧
+    0.99138 * a ≤ primeVertical E lat * (1 - E.e2) + h ∧
+    0.001745 ≤ cos lat := by
+  intro E
+  have ha0 : 0 < a := by linarith [hp.ha]
+  have hb : 0 < b := by nlinarith [hp.hf]
+  obtain ⟨he0, he1, hk⟩ := e2_bounds hb hp.hba
+  have haa : 0 < a * a := by positivity
+  -- e2 ≤ 1 - (289/290)^2
+  have he2 : E.e2 ≤ 579 / 84100 := by
+    have h1 : 1 - E.e2 = b * b / (a * a) := hk
+    have h2 : (289 / 290 : ℝ) ^ 2 ≤ b * b / (a * a) := by
+      rw [le_div_iff₀ haa]
+      have : a * (289 / 290) ≤ b := by linarith [hp.hf]
+      nlinarith
+    have : (289 / 290 : ℝ) ^ 2 = 1 - 579 / 84100 := by norm_num
+    linarith
+  have hsq : 0.9965 ≤ Real.sqrt (1 - E.e2) := by
+    apply Real.le_sqrt_of_sq_le
+    have : (0.9965 : ℝ) ^ 2 ≤ 1 - 579 / 84100 := by norm_num
+    linarith
+  have hw := w_pos hb hp.hba lat
+  have hW := Real.sqrt_pos.mpr hw
+  have hW1 := W_le_one hb hp.hba lat
+  have hWlo : Real.sqrt (1 - E.e2) ≤ Real.sqrt (1 - E.e2 * sin lat * sin lat) := by
+    apply Real.sqrt_le_sqrt
+    have := C01Analysis.radicand_ge he0 lat
+    rw [← mul_assoc] at this; exact this
+  have hN1 : a ≤ primeVertical E lat := by
+    rw [primeVertical_eq, a_eq, le_div_iff₀ hW]; nlinarith
+  have hN2 : primeVertical E lat ≤ a / 0.9965 := by
+    rw [primeVertical_eq, a_eq]
+    exact div_le_div_of_nonneg_left ha0.le (by norm_num) (le_trans hsq hWlo)
+  have h11 : (11000 : ℝ) ≤ 0.001727 * a := by nlinarith [hp.ha]
+  have hR1 : 0.998273 * a ≤ primeVertical E lat + h := by linarith [hp.hh]
+  have hR2 : 0.99138 * a ≤ primeVertical E lat * (1 - E.e2) + h := by
+    have h1 : a * (1 - 579 / 84100) ≤ primeVertical E lat * (1 - E.e2) := by
+      have : (0 : ℝ) ≤ 1 - 579 / 84100 := by norm_num
+      calc a * (1 - 579 / 84100) ≤ primeVertical E lat * (1 - 579 / 84100) :=
+            mul_le_mul_of_nonneg_right hN1 this
+        _ ≤ primeVertical E lat * (1 - E.e2) :=
+            mul_le_mul_of_nonneg_left (by linarith) (le_trans ha0.le hN1)
+    have : a * (1 - 579 / 84100) = 0.9931153388822830 * a + a * (1 - 579 / 84100 - 0.9931153388822830) := by ring
+    nlinarith [hp.hh]
+  exact ⟨he0, he2, hsq, hN1, hN2, hR1, hR2, C01Analysis.cos_ge_of_abs_le hp.hlat⟩
+
+/-- one pass of the loop body in the normal form `arctan (t / (1 - c·w φ))`, `c = a e²/p`, `t = Z/p` -/
+private theorem latStep_eq_g (E : Ellipsoid ℝ) (p Z φ : ℝ) (hp : p ≠ 0) (hw : 0 < 1 - E.e2 * (sin φ * sin φ)) :
+    latStep E p Z φ = C01Analysis.g E.e2 (E.a * E.e2 / p) (Z / p) φ ∧
+    1 - E.a * E.e2 * cos φ / (p * Real.sqrt (1 - E.e2 * (sin φ * sin φ))) =
+      1 - E.a * E.e2 / p * C01Analysis.w E.e2 φ := by
+  have hW := (Real.sqrt_pos.mpr hw).ne'
+  have e : E.a * E.e2 * cos φ / (p * Real.sqrt (1 - E.e2 * (sin φ * sin φ))) =
+      E.a * E.e2 / p * C01Analysis.w E.e2 φ := by
+    unfold C01Analysis.w; field_simp
+  refine ⟨?_, by rw [e]⟩
+  simp only [latStep, C01Analysis.g, one, Nat.cast_one, trans_atan, trans_sin, trans_cos, trans_sqrt]
+  rw [e]
+
+/-- on the property's domain the outer denominator of the loop body stays ≥ 0.95 within 0.01 rad of the
+    true latitude (guard of the division, and the lower bound used by the contraction estimate) -/
+private theorem denom_ge {a b lat h : ℝ} (hp : PropDom a b lat h) (φ : ℝ) (hφ : |φ - lat| ≤ 0.01) :
+    let E := Ellipsoid.make a b
+    0.95 ≤ 1 - E.a * E.e2 / ((primeVertical E lat + h) * cos lat) * C01Analysis.w E.e2 φ := by
+  intro E
+  obtain ⟨he0, he2, hsq, hN1, hN2, hR1, hR2, hC⟩ := prop_facts hp
+  have ha0 : 0 < a := by linarith [hp.ha]
+  have he1 : E.e2 < 1 := lt_of_le_of_lt he2 (by norm_num)
+  set R1 := primeVertical E lat + h with hR1def
+  set C := cos lat with hCdef
+  have hR1pos : 0 < R1 := by nlinarith
+  have hCpos : 0 < C := by linarith
+  have hw1 := C01Analysis.abs_w_le he0 he1 φ
+  have hcosφ : |cos φ| ≤ C + 0.01 := by
+    have := abs_cos_sub_cos_le φ lat
+    have h2 : |cos φ| ≤ |cos φ - cos lat| + |cos lat| := by
+      have := abs_add_le (cos φ - cos lat) (cos lat); simpa using this
+    rw [abs_of_pos hCpos] at h2; linarith
+  have hsk : 0 < Real.sqrt (1 - E.e2) := by linarith
+  have hw2 : |C01Analysis.w E.e2 φ| ≤ (C + 0.01) / 0.9965 := by
+    refine le_trans hw1 ?_
+    rw [div_le_div_iff₀ hsk (by norm_num)]
+    nlinarith [abs_nonneg (cos φ)]
+  have hc0 : 0 ≤ E.a * E.e2 / (R1 * C) := by
+    rw [a_eq]; positivity
+  have hcw : E.a * E.e2 / (R1 * C) * C01Analysis.w E.e2 φ ≤ E.a * E.e2 / (R1 * C) * ((C + 0.01) / 0.9965) :=
+    mul_le_mul_of_nonneg_left (le_trans (le_abs_self _) hw2) hc0
+  have hfin : E.a * E.e2 / (R1 * C) * ((C + 0.01) / 0.9965) ≤ 0.05 := by
+    rw [a_eq, div_mul_div_comm, div_le_iff₀ (by positivity)]
+    -- a e2 (C + 0.01) ≤ 0.05 * (R1 C * 0.9965)
+    have h1 : a * E.e2 * (C + 0.01) ≤ a * (579 / 84100) * (C + 0.01) := by
+      apply mul_le_mul_of_nonneg_right _ (by linarith)
+      exact mul_le_mul_of_nonneg_left he2 ha0.le
+    have h2 : 0.05 * (0.998273 * a * C * 0.9965) ≤ 0.05 * (R1 * C * 0.9965) := by
+      have : 0.998273 * a * C ≤ R1 * C := mul_le_mul_of_nonneg_right hR1 hCpos.le
+      linarith
+    have h3 : a * (579 / 84100) * (C + 0.01) ≤ 0.05 * (0.998273 * a * C * 0.9965) := by
+      have : 0 ≤ a * (0.0428 * C - 0.0000689) := mul_nonneg ha0.le (by linarith)
+      nlinarith
+    linarith
+  linarith
+
+/-- S5. `g_contracts`: on the property's domain (`|lat| ≤ 89.9°`, `h ∈ [−11 km, 100 km]`, `a` within 0.1 % of
+    6378137 m, `f ≤ 1/290`) the loop body `φ ↦ latStep φ` at the image of `(lat, lon, h)` is Lipschitz with the
+    explicit constant `q = 0.0099 < 0.01` on the interval of radius 0.01 rad around the true latitude. -/
+theorem g_contracts {a b lat h : ℝ} (hp : PropDom a b lat h) (φ₁ φ₂ : ℝ)
+    (h₁ : |φ₁ - lat| ≤ 0.01) (h₂ : |φ₂ - lat| ≤ 0.01) :
+    let E := Ellipsoid.make a b
+    let p := (primeVertical E lat + h) * cos lat
+    let Z := (primeVertical E lat * (1 - E.e2) + h) * sin lat
+    |latStep E p Z φ₁ - latStep E p Z φ₂| ≤ 0.0099 * |φ₁ - φ₂| := by
+  intro E p Z
+  obtain ⟨he0, he2, hsq, hN1, hN2, hR1, hR2, hC⟩ := prop_facts hp
+  have ha0 : 0 < a := by linarith [hp.ha]
+  have he1 : E.e2 < 1 := lt_of_le_of_lt he2 (by norm_num)
+  have hR1pos : 0 < primeVertical E lat + h := by nlinarith
+  have hR2pos : 0 < primeVertical E lat * (1 - E.e2) + h := by nlinarith
+  have hCpos : 0 < cos lat := by linarith
+  have hppos : 0 < p := mul_pos hR1pos hCpos
+  have hw : ∀ φ, 0 < 1 - E.e2 * (sin φ * sin φ) := fun φ =>
+    lt_of_lt_of_le (by linarith) (C01Analysis.radicand_ge he0 φ)
+  rw [(latStep_eq_g E p Z φ₁ hppos.ne' (hw φ₁)).1, (latStep_eq_g E p Z φ₂ hppos.ne' (hw φ₂)).1]
+  have hD1 := denom_ge hp φ₁ h₁
+  have hD2 := denom_ge hp φ₂ h₂
+  have hsk : 0 < Real.sqrt (1 - E.e2) := by linarith
+  set c := E.a * E.e2 / p with hcdef
+  set t := Z / p with htdef
+  have hc0 : 0 ≤ c := by rw [hcdef, a_eq]; positivity
+  have hcp : c * p = a * E.e2 := by rw [hcdef, a_eq]; field_simp
+  by_cases hcase : 0.7071 ≤ cos lat
+  · -- cos lat large: c is small, use Dmin² + t² ≥ 2 Dmin |t|
+    have hK : |t| * c ≤ c / 1.9 * (0.95 ^ 2 + t ^ 2) := by
+      have h3 : 1.9 * |t| ≤ 0.95 ^ 2 + t ^ 2 := by
+        have := sq_nonneg (|t| - 0.95); rw [← sq_abs t]; nlinarith
+      have : |t| * c = c / 1.9 * (1.9 * |t|) := by ring
+      rw [this]; exact mul_le_mul_of_nonneg_left h3 (by positivity)
+    have := C01Analysis.g_lipschitz_core he0 he1 hc0 (by norm_num : (0 : ℝ) < 0.95) hD1 hD2
+      (by positivity) hK (t := t) (x := φ₁) (y := φ₂)
+    refine le_trans this (mul_le_mul_of_nonneg_right ?_ (abs_nonneg _))
+    -- c / 1.9 / sqrt(1 - e2) ≤ 0.0099
+    have hcle : c ≤ 0.0098 := by
+      have hp1 : 0.998273 * a * 0.7071 ≤ p := by
+        calc 0.998273 * a * 0.7071 ≤ (primeVertical E lat + h) * 0.7071 :=
+              mul_le_mul_of_nonneg_right hR1 (by norm_num)
+          _ ≤ (primeVertical E lat + h) * cos lat := mul_le_mul_of_nonneg_left hcase hR1pos.le
+      have : a * E.e2 ≤ a * (579 / 84100) := mul_le_mul_of_nonneg_left he2 ha0.le
+      nlinarith
+    rw [div_le_iff₀ hsk, div_le_iff₀ (by norm_num)]
+    nlinarith
+  · -- sin lat large: |t| is large, use Dmin² + t² ≥ t²
+    have hC2 : cos lat < 0.7071 := not_le.mp hcase
+    have hS : 0.7071 < |sin lat| := by
+      have h1 := sin_sq_add_cos_sq lat
+      have h2 : cos lat ^ 2 < 0.7071 ^ 2 := by nlinarith
+      have h3 : (0.7071 : ℝ) ^ 2 < sin lat ^ 2 := by nlinarith
+      have := sq_lt_sq.mp h3
+      rwa [abs_of_pos (by norm_num : (0 : ℝ) < 0.7071)] at this
+    have hZ : |Z| = (primeVertical E lat * (1 - E.e2) + h) * |sin lat| := by
+      simp only [Z, abs_mul, abs_of_pos hR2pos]
+    have htabs : |t| = |Z| / p := by rw [htdef, abs_div, abs_of_pos hppos]
+    have hZpos : 0 < |Z| := by rw [hZ]; exact mul_pos hR2pos (by linarith)
+    have htpos : 0 < |t| := by rw [htabs]; exact div_pos hZpos hppos
+    have hK : |t| * c ≤ c / |t| * (0.95 ^ 2 + t ^ 2) := by
+      have : c / |t| * (0.95 ^ 2 + t ^ 2) = |t| * c + c / |t| * 0.95 ^ 2 := by
+        rw [← sq_abs t]; field_simp; ring
+      rw [this]; have : 0 ≤ c / |t| * 0.95 ^ 2 := by positivity
+      linarith
+    have := C01Analysis.g_lipschitz_core he0 he1 hc0 (by norm_num : (0 : ℝ) < 0.95) hD1 hD2
+      (by positivity) hK (t := t) (x := φ₁) (y := φ₂)
+    refine le_trans this (mul_le_mul_of_nonneg_right ?_ (abs_nonneg _))
+    -- c / |t| = a e2 / |Z|
+    have hct : c / |t| = a * E.e2 / |Z| := by
+      rw [htabs, hcdef, a_eq]; field_simp
+    rw [hct, div_le_iff₀ hsk, div_le_iff₀ hZpos]
+    have hZge : 0.99138 * a * 0.7071 ≤ |Z| := by
+      rw [hZ]
+      calc 0.99138 * a * 0.7071 ≤ (primeVertical E lat * (1 - E.e2) + h) * 0.7071 :=
+            mul_le_mul_of_nonneg_right hR2 (by norm_num)
+        _ ≤ (primeVertical E lat * (1 - E.e2) + h) * |sin lat| :=
+            mul_le_mul_of_nonneg_left hS.le hR2pos.le
+    have : a * E.e2 ≤ a * (579 / 84100) := mul_le_mul_of_nonneg_left he2 ha0.le
+    nlinarith
+
+/-! ## 7. The loop exits and the round trip is accurate on the property's domain (S) -/
+
+/-- bridge for the initial latitude. Guards: `0 < X²+Y²+Z²` (sqrt, division), `norm (1 - a e²/r) ≠ 0`. -/
+theorem lat0_of (E : Ellipsoid ℝ) (X Y Z n : ℝ) (hr : 0 < X * X + Y * Y + Z * Z)
+    (hD : n * (1 - E.a * E.e2 / Real.sqrt (X * X + Y * Y + Z * Z)) ≠ 0) :
+    lat0 (ofE E) (of X) (of Y) (of Z) (of n) = of (lat0 E X Y Z n) := by
+  have hs : Real.sqrt (X * X + Y * Y + Z * Z) ≠ 0 := (Real.sqrt_pos.mpr hr).ne'
+  simp only [lat0, ofE, one, natCast_of, Nat.cast_one, mul_of, add_of]
+  rw [sqrt_of _ hr.le, div_of _ _ hs, sub_of, mul_of, div_of _ _ hD, atan_of]
+  rfl
+
+/-- the initial guess of `toWGS84` lies within 0.01 rad of the true latitude, and its guards hold -/
+private theorem lat0_close {a b lat h : ℝ} (lon : ℝ) (hp : PropDom a b lat h) :
+    let E := Ellipsoid.make a b
+    let p := (primeVertical E lat + h) * cos lat
+    let Z := (primeVertical E lat * (1 - E.e2) + h) * sin lat
+    0 < p * cos lon * (p * cos lon) + p * sin lon * (p * sin lon) + Z * Z ∧
+    p * (1 - E.a * E.e2 / Real.sqrt (p * cos lon * (p * cos lon) + p * sin lon * (p * sin lon) + Z * Z)) ≠ 0 ∧
+    |lat0 E (p * cos lon) (p * sin lon) Z p - lat| ≤ 0.01 := by
+  intro E p Z
+  obtain ⟨he0, he2, hsq, hN1, hN2, hR1, hR2, hC⟩ := prop_facts hp
+  have hd := hp.dom
+  have ha0 : 0 < a := by linarith [hp.ha]
+  have hR1pos : 0 < primeVertical E lat + h := by nlinarith
+  have hR2pos : 0 < primeVertical E lat * (1 - E.e2) + h := by nlinarith
+  have hCpos : 0 < cos lat := by linarith
+  have hppos : 0 < p := mul_pos hR1pos hCpos
+  have hsum : p * cos lon * (p * cos lon) + p * sin lon * (p * sin lon) + Z * Z = p ^ 2 + Z ^ 2 := by
+    nlinarith [sin_sq_add_cos_sq lon]
+  have hrpos : 0 < p ^ 2 + Z ^ 2 := by positivity
+  rw [hsum]
+  set r := Real.sqrt (p ^ 2 + Z ^ 2) with hrdef
+  have hr0 : 0 < r := Real.sqrt_pos.mpr hrpos
+  -- r ≥ R2: r² = R1² C² + R2² S² ≥ R2² since R1 ≥ R2
+  have hR21 : primeVertical E lat * (1 - E.e2) + h ≤ primeVertical E lat + h := by
+    nlinarith [le_trans ha0.le hN1]
+  have hrge : primeVertical E lat * (1 - E.e2) + h ≤ r := by
+    apply Real.le_sqrt_of_sq_le
+    have h1 := sin_sq_add_cos_sq lat
+    have : (primeVertical E lat * (1 - E.e2) + h) ^ 2 ≤ (primeVertical E lat + h) ^ 2 :=
+      pow_le_pow_left₀ hR2pos.le hR21 2
+    simp only [p, Z]
+    nlinarith [sq_nonneg (cos lat), sq_nonneg (sin lat)]
+  -- D0 = 1 - a e2 / r ∈ [0.993, 1]
+  have hae : a * E.e2 ≤ 0.00695 * r := by
+    have : a * E.e2 ≤ a * (579 / 84100) := mul_le_mul_of_nonneg_left he2 ha0.le
+    nlinarith
+  have hD0lo : 0.993 ≤ 1 - E.a * E.e2 / r := by
+    rw [a_eq]
+    have : a * E.e2 / r ≤ 0.00695 := by rw [div_le_iff₀ hr0]; exact hae
+    linarith
+  have hD0hi : 1 - E.a * E.e2 / r ≤ 1 := by
+    rw [a_eq]; have : 0 ≤ a * E.e2 / r := by positivity
+    linarith
+  -- D* = R2 / R1 ∈ [0.993, 1]
+  have hw := w_pos hd.hb hd.hab lat
+  obtain ⟨f1, f2, _⟩ := fixed_real E lat h hw hd.hlat₁ hd.hlat₂ hR1pos.ne' hR2pos.ne'
+  have hDslo : 0.993 ≤ (primeVertical E lat * (1 - E.e2) + h) / (primeVertical E lat + h) := by
+    rw [le_div_iff₀ hR1pos]
+    have hNe : primeVertical E lat * E.e2 ≤ a / 0.9965 * (579 / 84100) :=
+      mul_le_mul hN2 he2 he0 (by positivity)
+    have : a / 0.9965 * (579 / 84100) ≤ 0.00691 * a := by
+      rw [div_mul_eq_mul_div, div_le_iff₀ (by norm_num)]; nlinarith
+    nlinarith
+  have hDshi : (primeVertical E lat * (1 - E.e2) + h) / (primeVertical E lat + h) ≤ 1 := by
+    rw [div_le_one hR1pos]; exact hR21
+  refine ⟨hrpos, ?_, ?_⟩
+  · exact mul_ne_zero hppos.ne' (by linarith)
+  · -- both latitudes are arctangents of t / D
+    set D0 := 1 - E.a * E.e2 / r with hD0def
+    set Ds := (primeVertical E lat * (1 - E.e2) + h) / (primeVertical E lat + h) with hDsdef
+    have e0 : lat0 E (p * cos lon) (p * sin lon) Z p = Real.arctan (Z / p / D0) := by
+      simp only [lat0, one, Nat.cast_one, trans_atan, trans_sqrt]
+      rw [hsum, div_div]
+    have es : lat = Real.arctan (Z / p / Ds) := by
+      have e := (latStep_eq_g E p Z lat hppos.ne' (by rw [← mul_assoc]; exact hw))
+      have := f1
+      rw [e.1] at this
+      unfold C01Analysis.g at this
+      rw [← e.2, f2] at this
+      exact this.symm
+    rw [e0]
+    conv_lhs => rw [es]
+    exact C01Analysis.arctan_div_close hD0lo hD0hi hDslo hDshi
+
+/-- components of the image point in `RN` -/
+private theorem image_xy {a b lat h : ℝ} (lon : ℝ) (hd : Dom a b lat h) :
+    let E := Ellipsoid.make a b
+    let p := (primeVertical E lat + h) * cos lat
+    let P := toECEF (Ellipsoid.make (of a) (of b)) ⟨of lat, of lon, of h⟩
+    P.x = of (p * cos lon) ∧ P.y = of (p * sin lon) := by
+  intro E p P
+  have hP : P = ofV (toECEF E ⟨lat, lon, h⟩) := by
+    simp only [P]; rw [make_of hd.hb hd.hab]
+    exact toECEF_of _ ⟨lat, lon, h⟩ (w_pos hd.hb hd.hab lat)
+  rw [hP]; exact ⟨rfl, rfl⟩
+
+/-- S6a. `roundtrip_accuracy` (latitude, longitude): on the property's domain, for every longitude in (−π, π]
+    and every fuel ≥ 8, the `RN` run of `toWGS84 ∘ toECEF` is defined up to the altitude formula (no guard
+    fails), the loop exits within 8 passes, the longitude is returned exactly and the latitude within
+    `1e-13 rad` (≤ the property's `1e-9 rad`) of the truth. -/
+theorem roundtrip_accuracy_lat_lon {a b lat h : ℝ} (lon : ℝ) (hp : PropDom a b lat h)
+    (hl₁ : -π < lon) (hl₂ : lon ≤ π) :
+    let E := Ellipsoid.make (of a) (of b)
+    let P := toECEF E ⟨of lat, of lon, of h⟩
+    ∀ fuel, 8 ≤ fuel → ∃ φ', toWGS84 fuel E P = some ⟨of φ', of lon, altOf E (normXY P.x P.y) (of φ')⟩ ∧
+      |φ' - lat| ≤ 1e-13 := by
+  intro E P fuel hfuel
+  have hd := hp.dom
+  obtain ⟨he0, he2, hsq, hN1, hN2, hR1, hR2, hC⟩ := prop_facts hp
+  have ha0 : 0 < a := by linarith [hp.ha]
+  set Er := Ellipsoid.make a b with hEr
+  set p := (primeVertical Er lat + h) * cos lat with hpdef
+  set Z := (primeVertical Er lat * (1 - Er.e2) + h) * sin lat with hZdef
+  have hR1pos : 0 < primeVertical Er lat + h := by nlinarith
+  have hR2pos : 0 < primeVertical Er lat * (1 - Er.e2) + h := by nlinarith
+  have hppos : 0 < p := mul_pos hR1pos (by linarith)
+  have hw : ∀ φ, 0 < 1 - Er.e2 * (sin φ * sin φ) := fun φ =>
+    lt_of_lt_of_le (by linarith) (C01Analysis.radicand_ge he0 φ)
+  obtain ⟨hz, hn⟩ := image_facts lon hd
+  obtain ⟨hx, hy⟩ := image_xy lon hd
+  obtain ⟨g1, g2, g3⟩ := lat0_close lon hp
+  obtain ⟨f1, _, _⟩ := fixed_real Er lat h (w_pos hd.hb hd.hab lat) hd.hlat₁ hd.hlat₂ hR1pos.ne' hR2pos.ne'
+  have key := roundtrip_accuracy_partial lon hd hl₁ hl₂ (fun φ => latStep Er p Z φ) 0.01 0.0099
+    (by norm_num) (by norm_num) (lat0 Er (p * cos lon) (p * sin lon) Z p) 7
+  simp only [] at key
+  have hstep : ∀ φ, |φ - lat| ≤ 0.01 → latStep E (normXY P.x P.y) P.z (of φ) = of (latStep Er p Z φ) := by
+    intro φ hφ
+    have hD := denom_ge hp φ hφ
+    have e := (latStep_eq_g Er p Z φ hppos.ne' (hw φ)).2
+    simp only [P, E] at hz hn ⊢
+    rw [hz, hn, make_of hd.hb hd.hab]
+    refine latStep_of Er p Z φ hppos.ne' (hw φ) ?_
+    rw [e]; simp only [] at hD; linarith
+  have hcontr : ∀ φ, |φ - lat| ≤ 0.01 → |latStep Er p Z φ - lat| ≤ 0.0099 * |φ - lat| := by
+    intro φ hφ
+    have := g_contracts hp φ lat hφ (by rw [sub_self, abs_zero]; norm_num)
+    simp only [] at this
+    rw [f1] at this; exact this
+  have hstart : lat0 E P.x P.y P.z (normXY P.x P.y) = of (lat0 Er (p * cos lon) (p * sin lon) Z p) := by
+    simp only [P, E] at hz hn hx hy ⊢
+    rw [hz, hn, hx, hy, make_of hd.hb hd.hab]
+    exact lat0_of Er _ _ _ _ g1 g2
+  have hk : (1 + 0.0099) * 0.0099 ^ 7 * 0.01 ≤ eps := le_trans (by norm_num) epsilon_bounds.1
+  obtain ⟨φ', e, hb⟩ := key hstep hcontr hstart g3 hk fuel (by omega)
+  refine ⟨φ', e, le_trans hb ?_⟩
+  have := epsilon_bounds.2
+  rw [div_le_iff₀ (by norm_num)]
+  nlinarith
+
+/-- the altitude formula evaluated within `1e-13 rad` of the true latitude is within 1 mm of `h`
+    (the ill-conditioned term is `p / cos φ`: `(N + h) · 1e-13 / cos 89.9° ≈ 0.37 mm`) -/
+private theorem alt_close {a b lat h : ℝ} (hp : PropDom a b lat h) (φ' : ℝ) (hδ : |φ' - lat| ≤ 1e-13) :
+    let E := Ellipsoid.make a b
+    let p := (primeVertical E lat + h) * cos lat
+    0.001744 ≤ cos φ' ∧ |altOf E p φ' - h| ≤ 3.8e-4 := by
+  intro E p
+  obtain ⟨he0, he2, hsq, hN1, hN2, hR1, hR2, hC⟩ := prop_facts hp
+  have ha0 : 0 < a := by linarith [hp.ha]
+  obtain ⟨hc', hu, _⟩ := C01Analysis.inv_cos_close hC hδ
+  have hv := C01Analysis.inv_W_close he0 he2 hδ
+  refine ⟨hc', ?_⟩
+  have hcpos : 0 < cos φ' := by linarith
+  have hCpos : 0 < cos lat := by linarith
+  have hR1pos : 0 < primeVertical E lat + h := by nlinarith
+  have hR1le : primeVertical E lat + h ≤ 6.51e6 := by
+    have : a / 0.9965 ≤ 6.41e6 := by rw [div_le_iff₀ (by norm_num)]; nlinarith [hp.ha']
+    linarith [hp.hh']
+  have e1 : altOf E p φ' = p / cos φ' - E.a / Real.sqrt (1 - E.e2 * (sin φ' * sin φ')) := by
+    simp [altOf]
+  have e2' : h = (primeVertical E lat + h) - E.a / Real.sqrt (1 - E.e2 * (sin lat * sin lat)) := by
+    rw [primeVertical_eq, mul_assoc]; ring
+  have e3 : altOf E p φ' - h = (primeVertical E lat + h) * (cos lat / cos φ' - 1) -
+      a * (1 / Real.sqrt (1 - E.e2 * (sin φ' * sin φ')) - 1 / Real.sqrt (1 - E.e2 * (sin lat * sin lat))) := by
+    rw [e1]; conv_lhs => rw [e2']
+    have hEa : E.a = a := rfl
+    rw [hEa]
+    simp only [p]; field_simp; ring
+  rw [e3]
+  have t1 : |(primeVertical E lat + h) * (cos lat / cos φ' - 1)| ≤ 6.51e6 * 5.74e-11 := by
+    rw [abs_mul, abs_of_pos hR1pos]
+    exact mul_le_mul hR1le hu (abs_nonneg _) (by norm_num)
+  have t2 : |a * (1 / Real.sqrt (1 - E.e2 * (sin φ' * sin φ')) -
+      1 / Real.sqrt (1 - E.e2 * (sin lat * sin lat)))| ≤ 6.39e6 * 1e-15 := by
+    rw [abs_mul, abs_of_pos ha0]
+    exact mul_le_mul (by linarith [hp.ha']) hv (abs_nonneg _) (by norm_num)
+  have := abs_sub (( primeVertical E lat + h) * (cos lat / cos φ' - 1))
+    (a * (1 / Real.sqrt (1 - E.e2 * (sin φ' * sin φ')) - 1 / Real.sqrt (1 - E.e2 * (sin lat * sin lat))))
+  have hnum : (6.51e6 : ℝ) * 5.74e-11 + 6.39e6 * 1e-15 ≤ 3.8e-4 := by norm_num
+  linarith
+
+/-- S6. `roundtrip_accuracy`: on the property's domain, for every longitude in (−π, π] and every fuel ≥ 8, the `RN`
+    run of `toWGS84 (toECEF (lat, lon, h))` is defined (no guard fails anywhere), the loop exits within 8 passes,
+    and the result is within `1e-13 rad` (property: `1e-9`) in latitude, exact in longitude and within `0.38 mm`
+    (property: `1 mm`) in height. -/
+theorem roundtrip_accuracy {a b lat h : ℝ} (lon : ℝ) (hp : PropDom a b lat h) (hl₁ : -π < lon) (hl₂ : lon ≤ π) :
+    let E := Ellipsoid.make (of a) (of b)
+    let P := toECEF E ⟨of lat, of lon, of h⟩
+    ∀ fuel, 8 ≤ fuel → ∃ φ' h', toWGS84 fuel E P = some ⟨of φ', of lon, of h'⟩ ∧
+      |φ' - lat| ≤ 1e-9 ∧ |h' - h| ≤ 1e-3 ∧
+      |φ' - lat| ≤ 1e-13 ∧ h' = altOf (Ellipsoid.make a b) ((primeVertical (Ellipsoid.make a b) lat + h) * cos lat) φ' := by
+  intro E P fuel hfuel
+  have hd := hp.dom
+  obtain ⟨φ', e, hb⟩ := roundtrip_accuracy_lat_lon lon hp hl₁ hl₂ fuel hfuel
+  obtain ⟨hc', halt⟩ := alt_close hp φ' hb
+  obtain ⟨he0, he2, _⟩ := prop_facts hp
+  obtain ⟨_, hn⟩ := image_facts lon hd
+  have hw : 0 < 1 - (Ellipsoid.make a b).e2 * (sin φ' * sin φ') :=
+    lt_of_lt_of_le (by linarith) (C01Analysis.radicand_ge he0 φ')
+  refine ⟨φ', _, ?_, le_trans hb (by norm_num), le_trans halt (by norm_num), hb, rfl⟩
+  rw [e]
+  rw [hn, make_of hd.hb hd.hab, altOf_of _ _ _ (by linarith) hw]
+
+/-- real-level core of the reverse composition: re-projecting `(φ', lon, alt(φ'))` with `φ'` within `1e-13 rad`
+    of the true latitude reproduces the horizontal radius exactly and `Z` within 0.38 mm -/
+private theorem reverse_close {a b lat h : ℝ} (hp : PropDom a b lat h) (φ' : ℝ) (hδ : |φ' - lat| ≤ 1e-13) :
+    let E := Ellipsoid.make a b
+    let p := (primeVertical E lat + h) * cos lat
+    let h' := altOf E p φ'
+    (primeVertical E φ' + h') * cos φ' = p ∧
+    |(primeVertical E φ' * (1 - E.e2) + h') * sin φ' - (primeVertical E lat * (1 - E.e2) + h) * sin lat| ≤ 3.8e-4 := by
+  intro E p h'
+  obtain ⟨he0, he2, hsq, hN1, hN2, hR1, hR2, hC⟩ := prop_facts hp
+  have ha0 : 0 < a := by linarith [hp.ha]
+  obtain ⟨hc', _, hu⟩ := C01Analysis.inv_cos_close hC hδ
+  have hv := C01Analysis.inv_W_close he0 he2 hδ
+  have hcpos : 0 < cos φ' := by linarith
+  have hk : (0.9965 : ℝ) ^ 2 ≤ 1 - E.e2 := by nlinarith
+  have hw : ∀ x : ℝ, 0 < 1 - E.e2 * (sin x * sin x) := fun x =>
+    lt_of_lt_of_le (by nlinarith) (C01Analysis.radicand_ge he0 x)
+  have hWge : ∀ x : ℝ, 0.9965 ≤ Real.sqrt (1 - E.e2 * (sin x * sin x)) := fun x =>
+    Real.le_sqrt_of_sq_le (le_trans hk (C01Analysis.radicand_ge he0 x))
+  have hR1pos : 0 < primeVertical E lat + h := by nlinarith
+  have hR1le : primeVertical E lat + h ≤ 6.51e6 := by
+    have : a / 0.9965 ≤ 6.41e6 := by rw [div_le_iff₀ (by norm_num)]; nlinarith [hp.ha']
+    linarith [hp.hh']
+  have hEa : E.a = a := rfl
+  have eN : ∀ x, primeVertical E x = a / Real.sqrt (1 - E.e2 * (sin x * sin x)) := fun x => by
+    rw [primeVertical_eq, mul_assoc, hEa]
+  have eh' : h' = p / cos φ' - a / Real.sqrt (1 - E.e2 * (sin φ' * sin φ')) := by
+    simp only [h', altOf, one, Nat.cast_one, trans_sin, trans_cos, trans_sqrt, hEa]
+  set W' := Real.sqrt (1 - E.e2 * (sin φ' * sin φ')) with hW'
+  set W := Real.sqrt (1 - E.e2 * (sin lat * sin lat)) with hW
+  have hW'pos : 0 < W' := by linarith [hWge φ']
+  have hWpos : 0 < W := by linarith [hWge lat]
+  have eN1 : primeVertical E φ' = a / W' := eN φ'
+  have eN0 : primeVertical E lat = a / W := eN lat
+  have eh1 : h' = p / cos φ' - a / W' := eh'
+  have ep : p = (a / W + h) * cos lat := by simp only [p]; rw [eN0]
+  clear_value W' W h' p
+  constructor
+  · rw [eN1, eh1]; field_simp; ring
+  · have e : (primeVertical E φ' * (1 - E.e2) + h') * sin φ' - (primeVertical E lat * (1 - E.e2) + h) * sin lat =
+        (primeVertical E lat + h) * (sin (φ' - lat) / cos φ') -
+          E.e2 * a * ((1 / W' - 1 / W) * sin φ' + (sin φ' - sin lat) * (1 / W)) := by
+      rw [eN1, eN0, eh1, sin_sub, ep]
+      field_simp; ring
+    rw [e]
+    have t1 : |(primeVertical E lat + h) * (sin (φ' - lat) / cos φ')| ≤ 6.51e6 * 5.74e-11 := by
+      rw [abs_mul, abs_of_pos hR1pos, abs_div, abs_of_pos hcpos]
+      exact mul_le_mul hR1le hu (by positivity) (by norm_num)
+    have t2 : |E.e2 * a * ((1 / W' - 1 / W) * sin φ' + (sin φ' - sin lat) * (1 / W))| ≤
+        579 / 84100 * 6.39e6 * (1e-15 + 1e-13 * 1.0036) := by
+      rw [abs_mul, abs_mul, abs_of_nonneg he0, abs_of_pos ha0]
+      have hs1 : |(1 / W' - 1 / W) * sin φ'| ≤ 1e-15 := by
+        rw [abs_mul]
+        calc |1 / W' - 1 / W| * |sin φ'| ≤ 1e-15 * 1 :=
+              mul_le_mul hv (abs_sin_le_one φ') (abs_nonneg _) (by norm_num)
+          _ = 1e-15 := by norm_num
+      have hs2 : |(sin φ' - sin lat) * (1 / W)| ≤ 1e-13 * 1.0036 := by
+        rw [abs_mul, abs_of_pos (by positivity : (0 : ℝ) < 1 / W)]
+        have h1 : |sin φ' - sin lat| ≤ 1e-13 := le_trans (abs_sin_sub_sin_le φ' lat) hδ
+        have h2 : 1 / W ≤ 1.0036 := by
+          rw [div_le_iff₀ hWpos]; nlinarith [hWge lat]
+        exact mul_le_mul h1 h2 (by positivity) (by norm_num)
+      have hs : |(1 / W' - 1 / W) * sin φ' + (sin φ' - sin lat) * (1 / W)| ≤ 1e-15 + 1e-13 * 1.0036 :=
+        le_trans (abs_add_le _ _) (add_le_add hs1 hs2)
+      have hea : E.e2 * a ≤ 579 / 84100 * 6.39e6 :=
+        mul_le_mul he2 (by linarith [hp.ha']) ha0.le (by norm_num)
+      exact mul_le_mul hea hs (abs_nonneg _) (by norm_num)
+    have := abs_sub ((primeVertical E lat + h) * (sin (φ' - lat) / cos φ'))
+      (E.e2 * a * ((1 / W' - 1 / W) * sin φ' + (sin φ' - sin lat) * (1 / W)))
+    have hnum : (6.51e6 : ℝ) * 5.74e-11 + 579 / 84100 * 6.39e6 * (1e-15 + 1e-13 * 1.0036) ≤ 3.8e-4 := by norm_num
+    linarith
+
+/-- S7. `reverse_composition`: on the property's domain the composition `toECEF ∘ toWGS84` applied to the ECEF
+    image `P` of `(lat, lon, h)` — i.e. to every Cartesian point of the property's domain — is defined over `RN`
+    and reproduces `P`: `X` and `Y` exactly, `Z` within 0.38 mm; hence the Euclidean distance is below 1 mm. -/
+theorem reverse_composition {a b lat h : ℝ} (lon : ℝ) (hp : PropDom a b lat h) (hl₁ : -π < lon) (hl₂ : lon ≤ π) :
+    let E := Ellipsoid.make (of a) (of b)
+    let P := toECEF E ⟨of lat, of lon, of h⟩
+    ∀ fuel, 8 ≤ fuel → ∃ (r : Geo RN) (Z Z' : ℝ), toWGS84 fuel E P = some r ∧
+      P.z = of Z ∧ toECEF E r = ⟨P.x, P.y, of Z'⟩ ∧ |Z' - Z| ≤ 1e-3 := by
+  intro E P fuel hfuel
+  have hd := hp.dom
+  obtain ⟨φ', h', e, _, _, hb, eh'⟩ := roundtrip_accuracy lon hp hl₁ hl₂ fuel hfuel
+  obtain ⟨he0, he2, _⟩ := prop_facts hp
+  obtain ⟨hz, _⟩ := image_facts lon hd
+  obtain ⟨hx, hy⟩ := image_xy lon hd
+  obtain ⟨r1, r2⟩ := reverse_close hp φ' hb
+  have hw : 0 < 1 - (Ellipsoid.make a b).e2 * sin φ' * sin φ' := by
+    rw [mul_assoc]; exact lt_of_lt_of_le (by linarith) (C01Analysis.radicand_ge he0 φ')
+  refine ⟨_, _, (toECEF (Ellipsoid.make a b) ⟨φ', lon, h'⟩).z, e, hz, ?_, ?_⟩
+  · have := toECEF_of (Ellipsoid.make a b) ⟨φ', lon, h'⟩ hw
+    simp only [ofG] at this
+    simp only [E, P]
+    rw [hx, hy, make_of hd.hb hd.hab, this]
+    simp only [ofV]
+    have ex : (toECEF (Ellipsoid.make a b) ⟨φ', lon, h'⟩).x =
+        (primeVertical (Ellipsoid.make a b) φ' + h') * cos φ' * cos lon := rfl
+    have ey : (toECEF (Ellipsoid.make a b) ⟨φ', lon, h'⟩).y =
+        (primeVertical (Ellipsoid.make a b) φ' + h') * cos φ' * sin lon := rfl
+    rw [ex, ey, eh', r1]
+  · have ez : (toECEF (Ellipsoid.make a b) ⟨φ', lon, h'⟩).z =
+        (primeVertical (Ellipsoid.make a b) φ' * (1 - (Ellipsoid.make a b).e2) + h') * sin φ' := by
+      simp [toECEF]
+    rw [ez, eh']
+    exact le_trans r2 (by norm_num)
+
+/-- S6'. the other end of the antimeridian: geodetic longitude exactly `−π` comes back as `+π` (same meridian),
+    with the same accuracy in latitude and height -/
+theorem roundtrip_accuracy_minus_pi {a b lat h : ℝ} (hp : PropDom a b lat h) :
+    let E := Ellipsoid.make (of a) (of b)
+    let P := toECEF E ⟨of lat, of (-π), of h⟩
+    ∀ fuel, 8 ≤ fuel → ∃ φ' h', toWGS84 fuel E P = some ⟨of φ', of π, of h'⟩ ∧
+      |φ' - lat| ≤ 1e-9 ∧ |h' - h| ≤ 1e-3 := by
+  intro E P fuel hfuel
+  have : P = toECEF E ⟨of lat, of π, of h⟩ := by
+    simp only [P, toECEF, cos_of, sin_of, cos_neg, sin_neg, sin_pi, neg_zero]
+  rw [this]
+  obtain ⟨φ', h', e, h1, h2, _⟩ := roundtrip_accuracy π hp (by linarith [pi_pos]) le_rfl fuel hfuel
+  exact ⟨φ', h', e, h1, h2⟩
+
 /-! ## Non-vacuity: concrete instances of the hypotheses -/
 
 /-- GRS80, Clermont-Ferrand-like point: in the domain -/
@@ -586,5 +1126,10 @@ example : Dom 6378137 6378137 (-(89.9 * π / 180)) (-11000) :=
   dom_of_property_domain (by norm_num) (by norm_num) le_rfl
     (by rw [abs_neg, abs_of_nonneg (by positivity)]) le_rfl
 example : (-π < π) ∧ (π ≤ π) := ⟨by linarith [pi_pos], le_rfl⟩
+/-- the property's quantifier domain is inhabited at its corners: GRS80, 89.9° N, −11 km; sphere, 100 km -/
+example : PropDom 6378137 6356752.314 (89.9 * π / 180) (-11000) :=
+  ⟨by norm_num, by norm_num, by norm_num, by norm_num, by rw [abs_of_nonneg (by positivity)], le_rfl, by norm_num⟩
+example : PropDom (6378137 * 1.001) (6378137 * 1.001) 0 100000 :=
+  ⟨by norm_num, le_rfl, by norm_num, le_rfl, by rw [abs_zero]; positivity, by norm_num, le_rfl⟩
 
 end Romea.C01
